@@ -256,7 +256,7 @@ def padList (pad : Option Pad) : List RField :=
 
 theorem memberField_plain (idx : Nat) (ty : FieldTy) (fl : Layout) (hl : ty.layout = some fl)
     (ha : 1 ≤ fl.align) :
-    memberField false idx ty = { name := .user idx, size := fl.size, align := fl.align } := by
+    memberField false idx ty = { name := .user idx, size := fl.size, align := fl.align, containsAlign := ty.containsAlign } := by
   have : max fl.align 1 = fl.align := by omega
   simp [memberField, hl, this]
 
@@ -455,7 +455,7 @@ theorem padStruct_plain {t : Tracker} {force : Bool} {e : Nat} (h : Inv t force 
 /-! ### the plain-struct theorem -/
 
 theorem hasBitfields_plain (cur : Nat) (fs : List CField) (h : plainFieldsFrom cur fs = true) :
-    (fs.any fun f => match f with | .unit _ _ => true | _ => false) = false := by
+    (fs.any fun f => match f with | .unit _ _ _ => true | _ => false) = false := by
   induction fs generalizing cur with
   | nil => rfl
   | cons f fs ih =>
